@@ -3,6 +3,7 @@ CONSTANTS
   TableIds = {1, 2, 3, 4}
   CollarIds = {1, 2, 3}
   QMax2 = 9
+  MaxSteps = 3
   Deviations = {"SurveysKeepCache"}
 INVARIANT ReadIsCurrent
 CHECK_DEADLOCK FALSE
